@@ -1,6 +1,7 @@
 (* C11 x C12: mutation through the parts of Matrix::partition, interleaved with resizing.
-   Filling part k of an accepted partition with a value is, on the flat storage, exactly
-   map_mut_with_index with the function "v inside the part's rectangle, unchanged outside";
+   Writing g(i, j) to every cell (i, j) of part k of an accepted partition (wave 2; a constant g
+   is the session-3 "fill") is, on the flat storage, exactly map_mut_with_index with the function
+   "g at the part's own index inside the part's rectangle, unchanged outside";
    hence it refines the list-of-rows specification, keeps the representation invariant and the
    size, and histories mixing it with the resizing operations refine the specification too. *)
 From Coq Require Import List ZArith NArith Bool Arith Lia.
@@ -27,34 +28,64 @@ Proof.
   destruct (position <? N.of_nat (length data)); cbn [fst]; auto using length_replace_nth.
 Qed.
 
-Lemma length_fill_part (data : list T) p v : length (fill_part data p v) = length data.
+Lemma length_write_part (data : list T) p g : length (write_part data p g) = length data.
 Proof.
-  unfold fill_part. generalize (grid (p_rows p) (p_cols p)) as cells. intros cells. revert data.
+  unfold write_part. generalize (grid (p_rows p) (p_cols p)) as cells. intros cells. revert data.
   induction cells as [|c cells IHc]; intros d; [reflexivity|]. cbn [fold_left]. now rewrite IHc, length_write.
 Qed.
+
+Lemma length_fill_part (data : list T) p v : length (fill_part data p v) = length data.
+Proof. apply length_write_part. Qed.
 
 Definition hits (p : part) (q : nat) (rc : N * N) : bool :=
   match try_get (VPart p) (fst rc) (snd rc) with Cell a => Nat.eqb (N.to_nat a) q | _ => false end.
 
-Lemma nth_error_fill_cells (p : part) (v : T) (cells : list (N * N)) : forall data q,
-  nth_error (fold_left (fun d rc => fst (write d (VPart p) (fst rc) (snd rc) v)) cells data) q =
-  if existsb (hits p q) cells
-  then (if Nat.ltb q (length data) then Some v else None) else nth_error data q.
+(* the last cell of the list whose write lands on storage position q *)
+Fixpoint last_hit (p : part) (q : nat) (cells : list (N * N)) : option (N * N) :=
+  match cells with
+  | [] => None
+  | rc :: rest => match last_hit p q rest with
+                  | Some x => Some x
+                  | None => if hits p q rc then Some rc else None
+                  end
+  end.
+
+Lemma last_hit_some p q cells rc : last_hit p q cells = Some rc -> In rc cells /\ hits p q rc = true.
+Proof.
+  induction cells as [|c cells IH]; [discriminate|]. cbn [last_hit].
+  destruct (last_hit p q cells) as [x|].
+  - intros E. injection E as ->. destruct (IH eq_refl) as [H1 H2]. split; [now right|exact H2].
+  - destruct (hits p q c) eqn:Eh; [|discriminate]. intros E. injection E as <-. split; [now left|exact Eh].
+Qed.
+
+Lemma last_hit_none p q cells : last_hit p q cells = None <-> existsb (hits p q) cells = false.
+Proof.
+  induction cells as [|c cells IH]; [split; reflexivity|]. cbn [last_hit existsb].
+  destruct (last_hit p q cells) as [x|].
+  - split; [discriminate|]. intros E. apply orb_false_iff in E as [_ E]. apply IH in E. discriminate.
+  - destruct (hits p q c); cbn [orb]; [split; discriminate|]. split; intros _; [now apply IH|reflexivity].
+Qed.
+
+Lemma nth_error_write_cells (p : part) (g : N -> N -> T) (cells : list (N * N)) : forall data q,
+  nth_error (fold_left (fun d rc => fst (write d (VPart p) (fst rc) (snd rc) (g (fst rc) (snd rc)))) cells data) q =
+  match last_hit p q cells with
+  | Some rc => if Nat.ltb q (length data) then Some (g (fst rc) (snd rc)) else None
+  | None => nth_error data q
+  end.
 Proof.
   induction cells as [|rc cells IH]; intros data q; [reflexivity|].
-  cbn [fold_left existsb]. rewrite IH, length_write. unfold hits at 2, write.
-  destruct (try_get (VPart p) (fst rc) (snd rc)) as [a| |]; cbn [orb fst]; try reflexivity.
+  cbn [fold_left last_hit]. rewrite IH, length_write.
+  destruct (last_hit p q cells) as [x|]; [reflexivity|].
+  unfold hits, write.
+  destruct (try_get (VPart p) (fst rc) (snd rc)) as [a| |]; cbn [fst]; try reflexivity.
   destruct (N.ltb_spec a (N.of_nat (length data))) as [Ha|Ha]; cbn [fst].
   - rewrite nth_error_replace_nth. rewrite (Nat.eqb_sym (N.to_nat a) q).
-    destruct (Nat.eqb q (N.to_nat a)) eqn:E; cbn [orb].
-    + apply Nat.eqb_eq in E. subst q.
-      replace (Nat.ltb (N.to_nat a) (length data)) with true by (symmetry; apply Nat.ltb_lt; lia).
-      destruct (existsb _ cells); reflexivity.
-    + reflexivity.
-  - destruct (Nat.eqb (N.to_nat a) q) eqn:E; cbn [orb]; [|reflexivity].
+    destruct (Nat.eqb q (N.to_nat a)) eqn:E; [|reflexivity].
+    apply Nat.eqb_eq in E. subst q. reflexivity.
+  - destruct (Nat.eqb (N.to_nat a) q) eqn:E; [|reflexivity].
     apply Nat.eqb_eq in E. subst q.
     replace (Nat.ltb (N.to_nat a) (length data)) with false by (symmetry; apply Nat.ltb_ge; lia).
-    destruct (existsb _ cells); [reflexivity|]. apply nth_error_None. lia.
+    apply nth_error_None. lia.
 Qed.
 
 (* "inside the rectangle [rlo, rhi) x [clo, chi)" *)
@@ -63,6 +94,11 @@ Definition in_rect (rlh clh : N * N) (i j : N) : bool :=
 
 Definition region_fill (v : T) (rlh clh : N * N) (x : T) (i j : N) : T :=
   if in_rect rlh clh i j then v else x.
+
+(* inside the rectangle the cell gets g at the PART's own index (row and column counted from the
+   rectangle's corner), outside it keeps its value *)
+Definition region_write (g : N -> N -> T) (rlh clh : N * N) (x : T) (i j : N) : T :=
+  if in_rect rlh clh i j then g (i - fst rlh) (j - fst clh) else x.
 
 Lemma in_grid h w i j : In (i, j) (grid h w) <-> i < h /\ j < w.
 Proof.
@@ -112,6 +148,39 @@ Proof.
     discriminate.
 Qed.
 
+(* the only cell of the part that lands on storage position q *)
+Lemma hits_cell W rlo rhi clo chi q i j : rlo <= rhi -> clo <= chi -> chi <= W ->
+  hits (make_part (grid_slices W (rlo, rhi) (clo, chi))) q (i, j) = true ->
+  i = N.of_nat q / W - rlo /\ j = N.of_nat q mod W - clo.
+Proof.
+  intros Hr Hc HW Hh. destruct (grid_part_get W rlo rhi clo chi Hr Hc) as [_ Hget].
+  unfold hits in Hh. cbn [fst snd] in Hh. rewrite Hget in Hh.
+  destruct ((i <? rhi - rlo) && (j <? chi - clo)) eqn:Eij; [|discriminate].
+  apply andb_true_iff in Eij as [Ei Ej]. apply N.ltb_lt in Ei, Ej. apply Nat.eqb_eq in Hh.
+  assert (Eq : N.of_nat q = (rlo + i) * W + (clo + j)) by lia.
+  assert (Hlt : clo + j < W) by lia.
+  assert (Ed : N.of_nat q / W = rlo + i).
+  { symmetry. apply (N.div_unique _ _ _ (clo + j)); [exact Hlt|lia]. }
+  assert (Em : N.of_nat q mod W = clo + j).
+  { symmetry. apply (N.mod_unique _ _ (rlo + i)); [exact Hlt|lia]. }
+  lia.
+Qed.
+
+Lemma last_hit_grid W rlo rhi clo chi q : rlo <= rhi -> clo <= chi -> chi <= W ->
+  let p := make_part (grid_slices W (rlo, rhi) (clo, chi)) in
+  last_hit p q (grid (p_rows p) (p_cols p))
+  = if in_rect (rlo, rhi) (clo, chi) (N.of_nat q / W) (N.of_nat q mod W)
+    then Some (N.of_nat q / W - rlo, N.of_nat q mod W - clo) else None.
+Proof.
+  intros Hr Hc HW p. rewrite <- (hits_grid W rlo rhi clo chi q Hr Hc HW). fold p.
+  destruct (last_hit p q (grid (p_rows p) (p_cols p))) as [[i j]|] eqn:EL.
+  - destruct (last_hit_some _ _ _ _ EL) as [Hin Hh].
+    replace (existsb (hits p q) (grid (p_rows p) (p_cols p))) with true
+      by (symmetry; apply existsb_exists; exists (i, j); split; assumption).
+    destruct (hits_cell W rlo rhi clo chi q i j Hr Hc HW Hh) as [-> ->]. reflexivity.
+  - apply last_hit_none in EL. rewrite EL. reflexivity.
+Qed.
+
 (* the flat form of map_mut_with_index: the value at storage position q is mapped with the
    index (q / columns, q mod columns) *)
 Lemma map_rc_flat (f : T -> N -> N -> T) C (data : list T) : 0 < C -> forall k,
@@ -142,24 +211,30 @@ Proof.
   - rewrite IH. replace (k + 1 + N.of_nat q) with (k + N.of_nat (S q)) by lia. reflexivity.
 Qed.
 
+(* writing g over the part at a rectangle = map_mut_with_index with region_write *)
+Lemma write_part_as_map W rlo rhi clo chi (data : list T) g : rlo <= rhi -> clo <= chi -> chi <= W -> 0 < W ->
+  write_part data (make_part (grid_slices W (rlo, rhi) (clo, chi))) g
+  = map_rc (region_write g (rlo, rhi) (clo, chi)) W data 0 0.
+Proof.
+  intros Hr Hc HW HW0. apply list_eq_nth_error. intros q. unfold write_part.
+  rewrite nth_error_write_cells, (last_hit_grid W rlo rhi clo chi q Hr Hc HW).
+  replace 0 with (0 / W) at 3 by (apply N.div_0_l; lia).
+  replace 0 with (0 mod W) at 4 by (apply N.mod_0_l; lia).
+  rewrite (map_rc_flat _ W data HW0 0), nth_error_mapi_from. cbn [N.add]. unfold region_write. cbn [fst snd].
+  destruct (nth_error data q) as [x|] eqn:E; cbn [option_map].
+  - assert (Hq : (q < length data)%nat) by (apply nth_error_Some; congruence).
+    destruct (in_rect _ _ _ _); [|reflexivity]. cbn [fst snd].
+    replace (Nat.ltb q (length data)) with true by (symmetry; apply Nat.ltb_lt; lia). reflexivity.
+  - apply nth_error_None in E.
+    destruct (in_rect _ _ _ _); [|reflexivity]. cbn [fst snd].
+    replace (Nat.ltb q (length data)) with false by (symmetry; apply Nat.ltb_ge; lia). reflexivity.
+Qed.
+
 (* filling the part at a rectangle = map_mut_with_index with region_fill *)
 Lemma fill_part_as_map W rlo rhi clo chi (data : list T) v : rlo <= rhi -> clo <= chi -> chi <= W -> 0 < W ->
   fill_part data (make_part (grid_slices W (rlo, rhi) (clo, chi))) v
   = map_rc (region_fill v (rlo, rhi) (clo, chi)) W data 0 0.
-Proof.
-  intros Hr Hc HW HW0. apply list_eq_nth_error. intros q. unfold fill_part.
-  rewrite nth_error_fill_cells, (hits_grid W rlo rhi clo chi q Hr Hc HW).
-  replace 0 with (0 / W) at 3 by (apply N.div_0_l; lia).
-  replace 0 with (0 mod W) at 4 by (apply N.mod_0_l; lia).
-  rewrite (map_rc_flat _ W data HW0 0), nth_error_mapi_from. cbn [N.add]. unfold region_fill.
-  destruct (nth_error data q) as [x|] eqn:E; cbn [option_map].
-  - assert (Hq : (q < length data)%nat) by (apply nth_error_Some; congruence).
-    replace (Nat.ltb q (length data)) with true by (symmetry; apply Nat.ltb_lt; lia).
-    destruct (in_rect _ _ _ _); reflexivity.
-  - apply nth_error_None in E.
-    replace (Nat.ltb q (length data)) with false by (symmetry; apply Nat.ltb_ge; lia).
-    destruct (in_rect _ _ _ _); reflexivity.
-Qed.
+Proof. exact (write_part_as_map W rlo rhi clo chi data (fun _ _ => v)). Qed.
 
 (* ---------- the specification of the new step ---------- *)
 Definition spec_partition_fill (m : list (list T)) (rp cp : list N) (k : nat) (v : T) : list (list T) * bool :=
@@ -176,14 +251,25 @@ Definition spec_partition_fill (m : list (list T)) (rp cp : list N) (k : nat) (v
 Lemma length_intervals lo l x : length (intervals lo (l ++ [x])) = (length l + 1)%nat.
 Proof. unfold intervals. rewrite combine_length. cbn [length]. rewrite app_length. cbn [length]. apply Nat.min_r. lia. Qed.
 
-Lemma partition_fill_refines m rp cp k v : rect m ->
-  partition_fill (of_rows m) rp cp k v
-    = (of_rows (fst (spec_partition_fill m rp cp k v)), snd (spec_partition_fill m rp cp k v))
-  /\ rect (fst (spec_partition_fill m rp cp k v)).
+Definition spec_partition_write (m : list (list T)) (rp cp : list N) (k : nat) (g : N -> N -> T) : list (list T) * bool :=
+  let rows := nlen m in
+  let cols := N.of_nat (ncols m) in
+  if check_axis rp rows && check_axis cp cols && chain_b 0 (rp ++ [rows]) && chain_b 0 (cp ++ [cols]) then
+    match nth_error (intervals 0 (rp ++ [rows])) (k / (length cp + 1)),
+          nth_error (intervals 0 (cp ++ [cols])) (k mod (length cp + 1)) with
+    | Some rlh, Some clh => spec_step m (OMapMutWithIndex (region_write g rlh clh))
+    | _, _ => (m, true)
+    end
+  else (m, false).
+
+Lemma partition_write_refines m rp cp k g : rect m ->
+  partition_write (of_rows m) rp cp k g
+    = (of_rows (fst (spec_partition_write m rp cp k g)), snd (spec_partition_write m rp cp k g))
+  /\ rect (fst (spec_partition_write m rp cp k g)).
 Proof.
   intros Hr. pose proof Hr as [Hne [Hc Hall]].
   assert (Hrows : 1 <= nlen m) by (unfold nlen; destruct m; [congruence|cbn; lia]).
-  unfold partition_fill, spec_partition_fill. cbn [m_rows m_cols m_data of_rows].
+  unfold partition_write, spec_partition_write. cbn [m_rows m_cols m_data of_rows].
   set (rows := nlen m). set (cols := N.of_nat (ncols m)).
   rewrite (partition_spec rows cols rp cp Hrows).
   destruct (check_axis rp rows && check_axis cp cols) eqn:Eca; cbn [andb]; [|split; [reflexivity|exact Hr]].
@@ -201,8 +287,8 @@ Proof.
     destruct (interval_bounds _ 0 rlh Ecr (nth_error_In _ _ Ha)) as [_ [R1 R2]].
     destruct (interval_bounds _ 0 clh Ecc (nth_error_In _ _ Hb)) as [_ [C1 C2]].
     rewrite last_bound_app in R2, C2. destruct rlh as [rlo rhi], clh as [clo chi]. cbn [fst snd] in *.
-    rewrite (fill_part_as_map cols rlo rhi clo chi (concat m) v R1 C1 C2) by (unfold cols; lia).
-    destruct (map_mut_with_index_refines m (region_fill v (rlo, rhi) (clo, chi)) Hr) as [E R].
+    rewrite (write_part_as_map cols rlo rhi clo chi (concat m) g R1 C1 C2) by (unfold cols; lia).
+    destruct (map_mut_with_index_refines m (region_write g (rlo, rhi) (clo, chi)) Hr) as [E R].
     split; [|exact R]. rewrite <- E. reflexivity.
   - assert (Hk : nth_error rints (k / (length cp + 1)) = None).
     { apply nth_error_None. apply nth_error_None in Ek.
@@ -213,11 +299,18 @@ Proof.
     rewrite Hk. split; [reflexivity|exact Hr].
 Qed.
 
+Lemma partition_fill_refines m rp cp k v : rect m ->
+  partition_fill (of_rows m) rp cp k v
+    = (of_rows (fst (spec_partition_fill m rp cp k v)), snd (spec_partition_fill m rp cp k v))
+  /\ rect (fst (spec_partition_fill m rp cp k v)).
+Proof. exact (partition_write_refines m rp cp k (fun _ _ => v)). Qed.
+
 (* ---------- histories over the extended alphabet ---------- *)
 Definition xspec_step (m : list (list T)) (o : xop T) : list (list T) * bool :=
   match o with
   | XOp o => spec_step m o
   | XPartitionFill rp cp k v => spec_partition_fill m rp cp k v
+  | XPartitionWrite rp cp k g => spec_partition_write m rp cp k g
   end.
 
 Fixpoint xspec_trace (m : list (list T)) (ops : list (xop T)) : list (list (list T) * bool) :=
@@ -230,11 +323,14 @@ Lemma xstep_refines (s : matrix T) (o : xop T) : Inv s -> nlen (m_data s) <= isi
   abs (fst (xstep s o)) = fst (xspec_step (abs s) o) /\ snd (xstep s o) = snd (xspec_step (abs s) o)
   /\ Inv (fst (xstep s o)).
 Proof.
-  intros Hinv Hl. destruct o as [o|rp cp k v]; cbn [xstep xspec_step].
+  intros Hinv Hl. destruct o as [o|rp cp k v|rp cp k g]; cbn [xstep xspec_step].
   - destruct (panics_iff_allocated s o Hinv Hl) as [_ [_ [H1 H2]]]. split; [exact H1|]. split; [exact H2|].
     apply step_inv; exact Hinv.
   - destruct (abs_of_inv s Hinv) as [Hr Hs].
     destruct (partition_fill_refines (abs s) rp cp k v Hr) as [E R]. rewrite Hs in E. rewrite E. cbn [fst snd].
+    destruct (of_rows_abs _ R) as [A I]. auto.
+  - destruct (abs_of_inv s Hinv) as [Hr Hs].
+    destruct (partition_write_refines (abs s) rp cp k g Hr) as [E R]. rewrite Hs in E. rewrite E. cbn [fst snd].
     destruct (of_rows_abs _ R) as [A I]. auto.
 Qed.
 
@@ -254,23 +350,45 @@ Qed.
 
 (* the borrow of the parts leaves size and invariant alone, whatever the lists are, and a refused
    partition leaves the matrix untouched *)
+Theorem partition_write_frame (s : matrix T) rp cp k g : Inv s ->
+  let r := partition_write s rp cp k g in
+  Inv (fst r) /\ m_rows (fst r) = m_rows s /\ m_cols (fst r) = m_cols s /\
+  (snd r = false <-> partition (m_rows s) (m_cols s) rp cp = Panic) /\
+  (snd r = false -> fst r = s).
+Proof.
+  intros Hinv r. subst r. unfold partition_write.
+  pose proof (partition_spec (m_rows s) (m_cols s) rp cp ltac:(destruct Hinv; lia)) as Hspec.
+  destruct (partition (m_rows s) (m_cols s) rp cp) as [parts|e|] eqn:Ep.
+  - destruct (nth_error parts k) as [p|]; cbn [fst snd m_rows m_cols].
+    + assert (I : Inv (mkM (write_part (m_data s) p g) (m_rows s) (m_cols s))).
+      { destruct Hinv as [I1 [I2 I3]]. unfold Inv, nlen in *. cbn [m_rows m_cols m_data].
+        rewrite length_write_part. auto. }
+      repeat split; try discriminate; try exact I; apply I.
+    + repeat split; try discriminate; auto; apply Hinv.
+  - exfalso. destruct (_ && _ && _ && _) in Hspec; discriminate.
+  - cbn [fst snd]. repeat split; auto; apply Hinv.
+Qed.
+
 Theorem partition_fill_frame (s : matrix T) rp cp k v : Inv s ->
   let r := partition_fill s rp cp k v in
   Inv (fst r) /\ m_rows (fst r) = m_rows s /\ m_cols (fst r) = m_cols s /\
   (snd r = false <-> partition (m_rows s) (m_cols s) rp cp = Panic) /\
   (snd r = false -> fst r = s).
+Proof. exact (partition_write_frame s rp cp k (fun _ _ => v)). Qed.
+
+(* the cell mapping of a part, as the list-of-rows model sees it: after a write through part k of
+   an accepted partition, the entry at (i, j) of the matrix is g(i - rlo, j - clo) inside the
+   part's rectangle and what it was outside *)
+Theorem partition_write_cells (m : list (list T)) rp cp k g rlh clh : rect m ->
+  snd (spec_partition_write m rp cp k g) = true ->
+  nth_error (intervals 0 (rp ++ [nlen m])) (k / (length cp + 1)) = Some rlh ->
+  nth_error (intervals 0 (cp ++ [N.of_nat (ncols m)])) (k mod (length cp + 1)) = Some clh ->
+  fst (spec_partition_write m rp cp k g)
+  = mapi_from (fun i row => mapi_from (fun j x => if in_rect rlh clh i j then g (i - fst rlh) (j - fst clh) else x) 0 row) 0 m.
 Proof.
-  intros Hinv r. subst r. unfold partition_fill.
-  pose proof (partition_spec (m_rows s) (m_cols s) rp cp ltac:(destruct Hinv; lia)) as Hspec.
-  destruct (partition (m_rows s) (m_cols s) rp cp) as [parts|e|] eqn:Ep.
-  - destruct (nth_error parts k) as [p|]; cbn [fst snd m_rows m_cols].
-    + assert (I : Inv (mkM (fill_part (m_data s) p v) (m_rows s) (m_cols s))).
-      { destruct Hinv as [I1 [I2 I3]]. unfold Inv, nlen in *. cbn [m_rows m_cols m_data].
-        rewrite length_fill_part. auto. }
-      repeat split; try discriminate; try exact I; apply I.
-    + repeat split; try discriminate; auto; apply Hinv.
-  - exfalso. destruct (_ && _ && _ && _) in Hspec; discriminate.
-  - cbn [fst snd]. repeat split; auto; apply Hinv.
+  intros _ Hok Hr Hc. unfold spec_partition_write in *. rewrite Hr, Hc in *.
+  destruct (check_axis rp (nlen m) && check_axis cp (N.of_nat (ncols m)) && chain_b 0 (rp ++ [nlen m])
+            && chain_b 0 (cp ++ [N.of_nat (ncols m)])); [reflexivity|discriminate].
 Qed.
 
 End Part.
